@@ -11,7 +11,7 @@ from __future__ import annotations
 import ast
 from typing import Any, Dict, List
 
-from ..absint import App, Builtin, ExcVal, FuncRef, Hooks, Interp, ModRef, Raised, Sym, vrepr
+from ..absint import App, Builtin, ClassRef, ExcVal, FuncRef, Hooks, Interp, ModRef, Obj, Raised, Sym, vrepr
 from ..bytepat import Pat, PatHooks
 from ..model import AnalysisError, NotConstant, Repo, dotted, norm
 from ..report import Check
@@ -19,6 +19,7 @@ from .c09 import table
 
 FORGE = 'pytezos.michelson.forge'
 ENC = 'pytezos.crypto.encoding'
+TYPES = 'pytezos.michelson.types'
 
 REF_ADDRESS = {  # Tezos Contract_repr / Destination_repr binary encoding (22 bytes)
     'tz1': ('00 00', ''), 'tz2': ('00 01', ''), 'tz3': ('00 02', ''), 'tz4': ('00 03', ''),
@@ -280,6 +281,73 @@ def run(repo: Repo, chk: Check) -> None:
                    what=f'a {n}-byte value accepted by {validator} and written by forge_base58 cannot be read back (no table row): '
                         f'{[(p.outcome, vrepr(p.value)) for p in res][:2]}')
     chk.note('patterns', {k: v.describe() for k, v in cases.items()})
+
+    # ---- 5 the value an address type keeps: `address%entrypoint` as given, except that the entrypoint `default` (and only that name) is dropped;
+    #        the address part alone is what the base58 validators see -----------------------------------------------------------------------
+    chk.set_clause('C10.5')
+    from ..absint import cat as _cat
+
+    class AddrHooks(Hooks):
+        def inline(self, it, fi):
+            return fi.name in ('from_value', 'is_address', 'is_txr_address')
+
+        @staticmethod
+        def segs(v):
+            return list(v.args) if isinstance(v, App) and v.op == 'cat' else [v]
+
+        def isinstance(self, it, obj, classes):
+            from ..absint import Builtin
+            names = {c.name for c in classes if isinstance(c, Builtin)}
+            if isinstance(obj, Sym) or (isinstance(obj, App) and obj.op == 'cat'):
+                return 'str' in names
+            return NotImplemented
+
+        def call(self, it, callee, args, kwargs, node):
+            if isinstance(callee, App) and callee.op == 'attr':
+                recv, name = callee.args
+                ss = self.segs(recv)
+                if name == 'endswith' and isinstance(args[0], str) and (isinstance(recv, Sym) or (isinstance(recv, App) and recv.op == 'cat')):
+                    last = ss[-1]
+                    if isinstance(last, str):
+                        if len(args[0]) <= len(last):
+                            return last.endswith(args[0])
+                        return False if not last.endswith(args[0][-len(last):]) else App('endswith?', recv, args[0])
+                    return False  # a bare base58 address does not end with an entrypoint name
+                if name in ('split', 'partition', 'rsplit') and args and args[0] == '%' and (isinstance(recv, Sym) or (isinstance(recv, App) and recv.op == 'cat')):
+                    if len(ss) == 1:
+                        return [recv] if name != 'partition' else (recv, '', '')
+                    if len(ss) == 2 and isinstance(ss[1], str) and ss[1].startswith('%') and '%' not in ss[1][1:]:
+                        return [ss[0], ss[1][1:]] if name != 'partition' else (ss[0], '%', ss[1][1:])
+                    raise AnalysisError('C10.5: split of an address shape that is not modelled')
+                if name == 'decode' and isinstance(recv, Sym):
+                    return recv
+            if isinstance(callee, FuncRef) and callee.fi is not None and callee.fi.module.name == ENC and callee.fi.name.startswith(('is_', 'validate_')) \
+                    and callee.fi.name not in ('is_address', 'is_txr_address'):
+                it.event('validated', callee.fi.name, args[0])
+                return callee.fi.name in ('is_sr', 'is_l2_pkh')  # the last alternative succeeds: every validator of the chain is reached
+            if isinstance(callee, ClassRef) and callee.qual.endswith(('AddressType', 'TXRAddress')):
+                return Obj(callee.qual, {'value': args[0] if args else kwargs.get('value')})
+            return NotImplemented
+
+    naddr = 0
+    for cq in (f'{TYPES}.domain.AddressType', f'{TYPES}.domain.TXRAddress'):
+        fv = repo.find_method(cq, 'from_value')
+        if fv is None:
+            continue
+        for ep in (None, 'default', 'set_default', 'nodefault', 'x', 'default_'):
+            value = Sym('addr', 'str') if ep is None else _cat(Sym('addr', 'str'), '%' + ep)
+            want = Sym('addr', 'str') if ep in (None, 'default') else value
+            res = Interp(repo, AddrHooks(), max_depth=3).run_function(fv, [value], self_val=ClassRef(cq))
+            rets = [p for p in res if p.outcome == 'return' and isinstance(p.value, Obj)]
+            kept = sorted({vrepr(p.value.fields.get('value')) for p in rets})
+            seen = sorted({vrepr(e[2]) for p in res for e in p.events if isinstance(e, tuple) and e[0] == 'validated'})
+            naddr += 1
+            chk.ob('R-FLOW', fv.qualname, bool(rets) and len(rets) == len(res) and kept == [vrepr(want)] and seen == ['$addr'],
+                   f'{cq.rsplit(".", 1)[-1]} value `address{"%" + ep if ep else ""}`: kept as {"the bare address" if ep in (None, "default") else "given"}, validators see the address part', fv.loc,
+                   {'kept': kept, 'validators_saw': seen, 'outcomes': [p.outcome for p in res]},
+                   what=f'{cq.rsplit(".", 1)[-1]}.from_value on `address{"%" + ep if ep else ""}` keeps {kept} (expected {vrepr(want)}) and validates {seen} (expected the address part): '
+                        'an entrypoint is dropped / kept wrongly, or a validator is handed the string with its %entrypoint and rejects a valid address')
+    chk.minimum('address value shapes', naddr, 6)
 
 
 class _ContractReadHooks(CodecHooks):
